@@ -21,7 +21,10 @@ CONN_FORMS = [[], [], [], ["close"], ["keep-alive"], ["Keep-Alive"], ["Close"], 
               ["close\xa0"], ["\xc7lose"], ["TE, close"], ["keep-alive", "keep-alive"], ["foo", "bar"]]
 
 GOOD_STATUS = ["200 OK", "200 OK", "200 OK", "404 Not Found", "500 Internal Server Error", "201 Created", "301 Moved Permanently",
-               "200 ", "299 r\xe9ason with \t tab", "418 I'm a teapot", "599 x", "200 200 OK", "400 Bad: Request", "203 \xa0"]
+               "200 ", "299 r\xe9ason with \t tab", "418 I'm a teapot", "599 x", "200 200 OK", "400 Bad: Request", "203 \xa0",
+               # every class of status that is NOT bodiless by itself (RFC 9112 6.3: only 1xx, 204, 304 and HEAD are)
+               "205 Reset Content", "205 Reset Content", "206 Partial Content", "202 Accepted", "300 Multiple Choices", "303 See Other",
+               "305 x", "401 Unauthorized", "503 Service Unavailable", "214 x", "314 y"]
 NOBODY_STATUS = ["204 No Content", "304 Not Modified", "204 ", "304 x"]
 
 BENIGN_HEADERS = [("Content-Type", "text/plain"), ("X-Foo", "bar"), ("X-Foo", "  padded \t"), ("x-lower", "v"), ("X-Latin", "caf\xe9 \xff"),
@@ -251,7 +254,7 @@ def fixed_cases():
                                 w2["sendfile"] = sf
                                 cs.append(one(wk, req(minor=minor, conn=conn), app, w2))
                 for method in ("GET", "HEAD"):
-                    for status in ("200 OK", "204 No Content", "304 Not Modified"):
+                    for status in ("200 OK", "204 No Content", "304 Not Modified", "205 Reset Content", "305 Use Proxy", "214 Transformation"):
                         body = [] if (method == "HEAD" or status[0] == "2" and status[2] == "4" or status[0] == "3") else ["he", "", "llo"]
                         for cl in (None, sum(map(len, body))):
                             hdrs = [] if cl is None else [["Content-Length", str(cl)]]
